@@ -84,16 +84,29 @@ example : (dagReachNodes C17Example.d C17Example.dtopo).get "s" = ["s", "a", "t"
 
 /-! ## max_bottleneck_path -/
 
-/-- On any DAG (topological order satisfying the contract) and any edge values:
-* `KeyError` iff there is no source-to-sink path with at least one edge;
-* `(None, None)`: every source-to-sink path has an edge of value `≤ 0`, and some path has only
-  values `≥ 0` and the value `0` on one edge (best bottleneck exactly `0`);
+/-- On any DAG (topological order satisfying the contract) and any edge values — the complete case
+analysis (`BottleneckSpec`):
+* `(None, None)`: either there is no source-to-sink path with at least one edge at all (no node has
+  an in-edge and no out-edge, e.g. a graph without edges), or every source-to-sink path has an edge of
+  value `≤ 0` and some path has only values `≥ 0` and the value `0` on one edge (best bottleneck
+  exactly `0`);
 * `(q, p)`: `q ≠ 0`, `p` is a source-to-sink path whose smallest edge value is `q`, and every
   source-to-sink path has an edge of value `≤ q` (so `q` is the best bottleneck);
-* the model-internal fuel never runs out. -/
+* the model-internal fuel never runs out.
+
+Conversely `(None, None)` is returned **iff** no source-to-sink path has a positive bottleneck and,
+unless no source-to-sink path exists, some path has a non-negative one (a negative best bottleneck
+is returned as a path); for non-negative edge values: iff no source-to-sink path has a positive
+bottleneck — the case that no path exists at all included. -/
 theorem bottleneck_path_correct (g : Graph) (f : Edge → Rat) (topo : List Node) (h : IsTopo g.edges topo) :
-    BottleneckSpec g f (maxBottleneckPath g f topo) :=
-  maxBottleneckPath_spec g f topo h
+    BottleneckSpec g f (maxBottleneckPath g f topo) ∧
+    (maxBottleneckPath g f topo = .none ↔
+      (∀ p, IsSTPath g p → ∃ e ∈ walkEdges p, f e ≤ 0) ∧
+      ((∃ p, IsSTPath g p) → ∃ p, IsSTPath g p ∧ ∀ e ∈ walkEdges p, 0 ≤ f e)) ∧
+    ((∀ e ∈ g.edges, 0 ≤ f e) →
+      (maxBottleneckPath g f topo = .none ↔ ∀ p, IsSTPath g p → ∃ e ∈ walkEdges p, f e ≤ 0)) :=
+  ⟨maxBottleneckPath_spec g f topo h, maxBottleneckPath_none_iff g f topo h,
+   maxBottleneckPath_none_iff_nonneg g f topo h⟩
 
 example : maxBottleneckPath C17Example.d C17Example.dflow C17Example.dtopo = .path 3 ["s", "a", "t"] :=
   C17Example.d_bottleneck
@@ -114,29 +127,35 @@ example : ∃ r, decompose C17Example.d C17Example.dflow C17Example.dtopo = .don
     r.paths = [(["s", "a", "t"], 3), (["s", "b", "t"], 2)] ∧ ∀ e ∈ C17Example.d.edges, r.residual e = 0 :=
   C17Example.d_decompose
 
-/-- **greedy peeling is exact (full statement).** On a DAG with at least one edge, distinct edges,
-`topo` any order satisfying the topological-order contract, and a non-negative flow conserved at
-every node that has both in- and out-edges: the `while True` loop stops within the fuel `|E| + 1`
-(each round zeroes another edge), the residual vanishes, every returned path is a source-to-sink
-path of the graph with positive weight, and `Σ_i w_i · [e ∈ p_i] = f(e)` on every edge. -/
-theorem greedy_exact (g : Graph) (hnd : g.edges.Nodup) (hne : g.edges ≠ []) (topo : List Node)
+/-- **greedy peeling is exact (full statement).** On every DAG with distinct edges (a graph without
+edges included, see `greedy_edgeless_empty`), `topo` any order satisfying the topological-order
+contract, and a non-negative flow conserved at every node that has both in- and out-edges: the
+`while True` loop stops within the fuel `|E| + 1` (each round zeroes another edge), the residual
+vanishes, every returned path is a source-to-sink path of the graph with positive weight, and
+`Σ_i w_i · [e ∈ p_i] = f(e)` on every edge. -/
+theorem greedy_exact (g : Graph) (hnd : g.edges.Nodup) (topo : List Node)
     (htopo : IsTopo g.edges topo) (f : Edge → Rat) (hnn : ∀ e ∈ g.edges, 0 ≤ f e) (hc : Conserving g f) :
     ∃ r, decompose g f topo = .done r ∧ (∀ e ∈ g.edges, r.residual e = 0) ∧
       (∀ e ∈ g.edges, peeledSum r.paths e = f e) ∧ (∀ pw ∈ r.paths, IsSTPath g pw.1 ∧ 0 < pw.2) :=
-  decompose_exact g hnd hne topo htopo f hnn hc
+  decompose_exact g hnd topo htopo f hnn hc
 
 example : ∃ r, decompose C17Example.d C17Example.dflow C17Example.dtopo = .done r ∧
     (∀ e ∈ C17Example.d.edges, r.residual e = 0) ∧
     (∀ e ∈ C17Example.d.edges, peeledSum r.paths e = C17Example.dflow e) ∧
     (∀ pw ∈ r.paths, IsSTPath C17Example.d pw.1 ∧ 0 < pw.2) :=
-  greedy_exact C17Example.d (by decide) (by decide) C17Example.dtopo C17Example.d_topo' C17Example.dflow
+  greedy_exact C17Example.d (by decide) C17Example.dtopo C17Example.d_topo' C17Example.dflow
     C17Example.d_nonneg C17Example.d_conserving
 
-/-- the hypothesis `g.edges ≠ []` of `greedy_exact` cannot be dropped: on a graph without edges the
-code raises `KeyError(None)` instead of returning no paths (finding C17-F1; the model mirrors it). -/
-theorem greedy_edgeless_keyError (g : Graph) (he : g.edges = []) (topo : List Node) (htopo : IsTopo g.edges topo)
-    (f : Edge → Rat) : ∃ r, decompose g f topo = r ∧ (match r with | .keyError => True | _ => False) :=
-  decompose_edgeless g he topo htopo f
+/-- on a graph without edges (any nodes, any order, any `f`) `max_bottleneck_path` answers
+`(None, None)` and `decompose_using_max_bottleneck` returns `([], [])` leaving `f` untouched
+(repaired finding C17-F1: the code used to raise `KeyError(None)` here). -/
+theorem greedy_edgeless_empty (g : Graph) (he : g.edges = []) (topo : List Node) (f : Edge → Rat) :
+    maxBottleneckPath g f topo = .none ∧ decompose g f topo = .done { paths := [], residual := f } :=
+  decompose_edgeless g he topo f
+
+example : decompose { nodes := ["a", "b"], edges := [] } C17Example.dflow ["a", "b"] =
+    .done { paths := [], residual := C17Example.dflow } :=
+  (greedy_edgeless_empty _ rfl _ _).2
 
 /-! ## antichain extraction -/
 
